@@ -91,11 +91,47 @@ func determinismMem(r *Run) {
 		}
 	}
 	paths := w.FilePaths()
+	if t.Bool(1, 10, "megabyte-file") {
+		// buffers of a megabyte and more (allocation strategies tend to
+		// change with size)
+		size := (1 << 20) + t.Draw(1<<19, "mb-size")
+		data := expandContent(ckRandom, t.Draw64(0, "mb-seed"), size, 64)
+		if !par1Set && size/w.S > 20000 {
+			data = data[:20000*w.S-1]
+		}
+		w.Files[0].Data = data
+		base.Put(w.Path(0), data)
+		r.Probe("file>=1MiB")
+	}
 	create("canonical", paths, w.Index, 1, SchedSpec{})
+	// an unrelated set created in between, in the same process: results
+	// must not depend on what the process did before
+	unrelated := func() {
+		u := GenWorld(r, GenOpts{Par1: par1Set, MaxFiles: 3, MaxTotal: 8 << 10, MaxR: 4})
+		if t.Bool(1, 4, "unrelated-big") {
+			d := expandContent(ckRandom, t.Draw64(0, "ub-seed"), (1<<20)+t.Draw(1<<18, "ub-size"), 64)
+			if !par1Set && len(d)/u.S > 20000 {
+				d = d[:20000*u.S-1]
+			}
+			u.Files[0].Data = d
+			u.Disk.Put(u.Path(0), d)
+		}
+		var c *OpResult
+		if par1Set {
+			c = r.Create1(u, u.Index, u.FilePaths(), nil)
+		} else {
+			c = r.Create2(u, u.FilePaths(), nil, SchedSpec{})
+		}
+		r.noPanic(c)
+		r.Probe("unrelated-create-in-between")
+	}
 	var variations []string
 	// repetition (map iteration order)
 	reps := 4
 	for i := 0; i < reps; i++ {
+		if i%2 == 1 && t.Bool(1, 2, "unrelated-between") {
+			unrelated()
+		}
 		create(fmt.Sprintf("repeat %d", i+1), paths, w.Index, 1, SchedSpec{})
 	}
 	r.Probe("repeat")
